@@ -15,9 +15,11 @@ def sh(cmd, cwd=None, timeout=3600):
     return p.returncode, p.stdout
 
 def main():
-    pid, letter = sys.argv[1], sys.argv[2]
-    extra = sys.argv[3:]
-    seed = f"/tmp/seed3_{pid}/SEED" if letter in ("E", "F") else f"/tmp/seed2_{pid}/SEED" if letter in ("C", "D") else f"/tmp/seed_{pid}/SEED"
+    confirm_only = "--confirm-only" in sys.argv
+    args = [a for a in sys.argv[1:] if not a.startswith("--")]
+    pid, letter = args[0], args[1]
+    extra = args[2:]
+    seed = f"/tmp/seed4_{pid}/SEED" if letter in ("G", "H") else f"/tmp/seed3_{pid}/SEED" if letter in ("E", "F") else f"/tmp/seed2_{pid}/SEED" if letter in ("C", "D") else f"/tmp/seed_{pid}/SEED"
     patch = f"{seed}/{letter}.diff"
     demo = f"{seed}/{letter}_demo.rs"
     kept = f"/verif/seeded/{pid}-{letter}"
@@ -54,6 +56,17 @@ def main():
     print(json.dumps({k: meta[k] for k in ("demo_without_change", "demo_with_change", "suite_with_change", "confirmed")}))
     if not confirmed:
         print("NOT CONFIRMED — not kept"); return 1
+    if confirm_only:
+        # phase 1 only (parallelisable: touches nothing but its own scratch worktree); seedmatrix.py runs the checks
+        meta["what_it_needs"] = notes_text if notes_text is not None else (open(f"{seed}/notes.md").read()[:6000] if os.path.exists(f"{seed}/notes.md") else "")
+        meta["ran"] = ["cargo test --offline --features serde,regex --test seed_demo (without / with the change)", "cargo test --offline (with the change)",
+                       "seedmatrix.py: git -C /repo apply patch.diff; ./check <id> quick; git -C /repo checkout -- ."]
+        dst = f"/verif/seeded/{pid}-{letter}"
+        os.makedirs(dst, exist_ok=True)
+        shutil.copy(patch, f"{dst}/patch.diff")
+        shutil.copy(demo, f"{dst}/demo.rs")
+        json.dump(meta, open(f"{dst}/meta.json", "w"), indent=1, ensure_ascii=False)
+        return 0
     # run the checks against the change applied to /repo itself, then undo
     checks = {}
     rc, out = sh(f"git -C /repo apply {patch}")
